@@ -1,9 +1,10 @@
 package helpers
 
-import "fmt"
+import "reflect"
 
 // IsTruthy converts a value to boolean following Vue semantics.
 // For bound attributes, false values should not render the attribute.
+// False, zero of any numeric type, the empty string, "false" and nil are falsy.
 func IsTruthy(val any) bool {
 	switch b := val.(type) {
 	case bool:
@@ -14,11 +15,50 @@ func IsTruthy(val any) bool {
 			return false
 		}
 		return true
-	case int, int64, float64:
-		return fmt.Sprintf("%v", b) != "0"
+	case int:
+		return b != 0
+	case int8:
+		return b != 0
+	case int16:
+		return b != 0
+	case int32:
+		return b != 0
+	case int64:
+		return b != 0
+	case uint:
+		return b != 0
+	case uint8:
+		return b != 0
+	case uint16:
+		return b != 0
+	case uint32:
+		return b != 0
+	case uint64:
+		return b != 0
+	case uintptr:
+		return b != 0
+	case float32:
+		return b != 0
+	case float64:
+		return b != 0
 	case nil:
 		return false
 	default:
-		return true
+		return !isNamedNumericZero(val)
 	}
+}
+
+// isNamedNumericZero reports whether val is the zero value of a defined
+// (named) numeric type such as time.Duration.
+func isNamedNumericZero(val any) bool {
+	rv := reflect.ValueOf(val)
+	switch rv.Kind() {
+	case reflect.Int, reflect.Int8, reflect.Int16, reflect.Int32, reflect.Int64:
+		return rv.Int() == 0
+	case reflect.Uint, reflect.Uint8, reflect.Uint16, reflect.Uint32, reflect.Uint64, reflect.Uintptr:
+		return rv.Uint() == 0
+	case reflect.Float32, reflect.Float64:
+		return rv.Float() == 0
+	}
+	return false
 }
